@@ -57,6 +57,10 @@ type c17Scenario struct {
 	// byte slice (each window's capacity reaches into the next one), as a
 	// caller cutting a genome into pieces hands them to the writer.
 	SharedBuffer bool `json:"shared_buffer,omitempty"`
+	// ViaGenBank: the GenBank records are first written as GenBank and read
+	// back by another process (gts extract ... | gts <cmd> -F fasta); the
+	// FASTA description must still be that of the record that was written.
+	ViaGenBank bool `json:"via_genbank,omitempty"`
 }
 
 var printable = func() string {
@@ -124,6 +128,7 @@ func genC17(r *core.RNG, tier string) *c17Scenario {
 		if r.Chance(1, 4) {
 			sc.OutName = fastaNames[r.Intn(len(fastaNames))]
 		}
+		sc.ViaGenBank = r.Chance(1, 3)
 		return sc
 	}
 	n := r.Range(1, 5)
@@ -298,6 +303,21 @@ func (x *c17Run) exec() {
 			f, ok := fieldsOf(seq)
 			if !ok {
 				continue
+			}
+			if sc.ViaGenBank {
+				text, err, pnc := writeSeq(seq, seqio.GenBankFile)
+				if err != nil || pnc != "" {
+					res.Extended["genbank-writer-failed-on-record-to-convert"]++
+					continue
+				}
+				processBoundary()
+				r := scanAll(text, simpipe.Spec{Chunks: sc.Chunks, CutAt: -1}, 0)
+				if r.Panic != "" || r.Err != nil || len(r.Seqs) != 1 {
+					continue // closure of GenBank output is C01's business
+				}
+				seq = r.Seqs[0]
+				res.Probes["conversions_of_records_read_back_from_genbank"]++
+				x.key("conversion|via-genbank")
 			}
 			out, err, pnc := writeSeq(seq, fastaType)
 			res.Evaluations++
@@ -478,7 +498,7 @@ func (C17) Meta() core.Meta {
 	return core.Meta{
 		Property:   "C17",
 		Level:      "exploration",
-		NonVacuous: []string{"crlf_streams", "genbank_to_fasta_conversions", "record_aligned_chunk_schedules"},
+		NonVacuous: []string{"crlf_streams", "genbank_to_fasta_conversions", "conversions_of_records_read_back_from_genbank", "record_aligned_chunk_schedules"},
 		Rule: "Each simulated run draws from its seed a stream of 1-5 FASTA records (descriptions: empty, with '>', with leading/trailing blanks, arbitrary printable; residue " +
 			"counts sweeping every remainder mod 70 incl. 0 and exact multiples; alphabets ACGT / lower case / amino acids / every printable byte except '>'), or 1-2 GenBank " +
 			"records (generated or corpus, optionally sliced or edited) converted to FASTA. A simulated writer process writes them with the real FASTA writer; the 70-column " +
